@@ -806,4 +806,205 @@ theorem attr_ref_bad (env : Env F) (strict : Bool) (a : AttrD) (tg : String) (ht
   | missing => simp [hne2, IStream.failed, hcri, hlk]; rfl
 
 
+/-- `.WORD.` where the word is no item of the type (`SDAI_Enum::STEPread`): nothing assigned, WARNING, the stream after the
+    closing `.` -/
+theorem enumRead_undeclared (lex : LexCfg) (k : EnumKind) (optional : Bool) (name : List Byte)
+    (hne : name ≠ []) (hname : name.all pw = true) (hfind : findName k.table (name.map toUpper) = none)
+    (l : List Byte) (sk : Bool) (R : List Byte) :
+    enumRead lex k optional (G l (46 :: (name ++ 46 :: R)) sk) .null =
+      (none, G (46 :: (name.reverse ++ 46 :: l)) R sk, .warning) := by
+  obtain ⟨n0, nu, rfl⟩ : ∃ n0 nu, name = n0 :: nu := by
+    cases name with
+    | nil => exact absurd rfl hne
+    | cons n0 nu => exact ⟨n0, nu, rfl⟩
+  obtain ⟨w, rst, h1, h2, h3⟩ := enumWord_spec n0 (46 :: l) (nu ++ 46 :: R) sk
+  have hsplit : (n0 :: nu) ++ (46 :: R) = w ++ rst := by simpa using h1
+  have hrst : rst = [] ∨ ∃ c t, rst = c :: t ∧ pw c = false := by
+    rcases h3 with ⟨hw, hp, _⟩ | ⟨_, hr, _⟩ | ⟨_, u, hr, _⟩ | ⟨_, x, u, hr, _, hx, _⟩
+    · subst hw; simp at h1; exact Or.inr ⟨n0, _, h1.symm, hp⟩
+    · exact Or.inl hr
+    · exact Or.inr ⟨46, u, hr, pw_not_dot⟩
+    · exact Or.inr ⟨x, u, hr, hx⟩
+  obtain ⟨ew, er⟩ := prefix_unique pw (n0 :: nu) w (46 :: R) rst hsplit hname h2
+    (Or.inr ⟨46, _, rfl, pw_not_dot⟩) hrst
+  subst ew er
+  have hsw : enumWord n0 { left := n0 :: 46 :: l, right := nu ++ 46 :: R, eof := false, fail := false, bad := false, skipws := sk } =
+      (n0 :: nu, 46, { left := 46 :: ((n0 :: nu).reverse ++ 46 :: l), right := R, eof := false, fail := false, bad := false, skipws := sk }) := by
+    rcases h3 with ⟨hw, _, _⟩ | ⟨_, hr, _⟩ | ⟨_, u, hr, he⟩ | ⟨_, x, u, hr, hxq, _, _⟩
+    · cases hw
+    · cases hr
+    · simp only [List.cons.injEq, true_and] at hr; subst hr; exact he
+    · simp only [List.cons.injEq] at hr; exact absurd hr.1.symm hxq
+  have hfin : enumFinish lex k true false (n0 :: nu) 46 Sev.null = (none, Sev.warning) := by
+    simp only [List.map_cons] at hfind
+    simp [enumFinish, hfind, Sev.warnIf]
+    rfl
+  simp only [enumRead, readEnum, List.cons_append, ws_good0 _ _ _ _ (show isSpace 46 = false from by decide), IStream.good,
+    Bool.not_false, Bool.and_self, Bool.not_true, Bool.false_eq_true, if_false, getInto_good, beq_self_eq_true, Bool.true_or,
+    if_true, hsw, List.isEmpty_cons, hfin]
+  simp
+
+
+/-- an undeclared enumeration item for an ENUMERATION / BOOLEAN / LOGICAL attribute: WARNING, unset, at the delimiter -/
+theorem attr_enum_undeclared (env : Env F) (strict : Bool) (a : AttrD) (ty : ElemTy) (hty : a.ty = .one ty) (het : EnumTy ty)
+    (hder : a.derived = false) (hcfg : env.lex.criSkipsComments = true)
+    (name : List Byte) (hne : name ≠ []) (hname : name.all pw = true)
+    (hfind : findName (enumKindOf ty).table (name.map toUpper) = none)
+    (l : List Byte) (sk : Bool) (seps : List Byte) (hs : Seps seps) (d : Byte) (rest : List Byte) (hd : d = 44 ∨ d = 41) :
+    attrSTEPread env strict a (G l (46 :: (name ++ [46]) ++ (seps ++ d :: rest)) sk) =
+      .ok (.warning, .one (.atom .unset), G (seps.reverse ++ ((46 :: (name ++ [46])).reverse ++ l)) (d :: rest) sk) := by
+  have hshape : 46 :: (name ++ [46]) ++ (seps ++ d :: rest) = 46 :: (name ++ 46 :: (seps ++ d :: rest)) := by simp
+  unfold attrSTEPread
+  rw [hshape, show (G l (46 :: (name ++ 46 :: (seps ++ d :: rest))) sk).ws = G l (46 :: (name ++ 46 :: (seps ++ d :: rest))) sk
+    from ws_good0 l 46 _ sk (by decide)]
+  simp only [bind, Except.bind, pure, Except.pure]
+  rw [show (G l (46 :: (name ++ 46 :: (seps ++ d :: rest))) sk).peekC = (46, G l (46 :: (name ++ 46 :: (seps ++ d :: rest))) sk)
+    from peekC_good l 46 _ sk]
+  have e36 : ((46 : Byte) == 36) = false := by decide
+  have e44 : ((46 : Byte) == 44) = false := by decide
+  have e41 : ((46 : Byte) == 41) = false := by decide
+  simp only [hder, Bool.false_eq_true, if_false, e36, e44, e41, Bool.or_self, hty]
+  have hmain : attrSTEPread.scalarNodeReadAttr env ty a.optional (G l (46 :: (name ++ 46 :: (seps ++ d :: rest))) sk) =
+      .ok (.warning, .unset, G (seps.reverse ++ (46 :: (name.reverse ++ 46 :: l))) (d :: rest) sk) := by
+    rw [scalarNodeReadAttr_enum env ty het, enumRead_undeclared env.lex (enumKindOf ty) a.optional name hne hname hfind l sk _]
+    simp only
+    rw [cri_seps env.lex hcfg seps hs _ rest d false sk .warning hd]
+    simp [enumValue, valueToAtom]
+  rcases het with rfl | rfl | ⟨items, rfl⟩ <;> (simp only [] ; rw [hmain]; simp)
+
+/-- something that is no string literal (does not start with an apostrophe; without delimiters) for a STRING attribute:
+    `SDAI_String::STEPread` reads nothing (INCOMPLETE), `CheckRemainingInput` skips the text: WARNING, unset -/
+theorem attr_string_junk (env : Env F) (strict : Bool) (a : AttrD) (hty : a.ty = .one .string) (hder : a.derived = false)
+    (j0 : Byte) (js : List Byte) (hj0s : isSpace j0 = false) (hj047 : j0 ≠ 47) (hj036 : j0 ≠ 36) (hj039 : j0 ≠ 39)
+    (hj : ∀ b ∈ j0 :: js, delimAt env.lex attrDelims b = false)
+    (l : List Byte) (sk : Bool) (d : Byte) (rest : List Byte) (hd : d = 44 ∨ d = 41) :
+    attrSTEPread env strict a (G l (j0 :: (js ++ d :: rest)) sk) =
+      .ok (.warning, .one (.atom .unset), G ((j0 :: js).reverse ++ l) (d :: rest) sk) := by
+  have hj0 : delimAt env.lex attrDelims j0 = false := hj j0 (by simp)
+  have h44 : j0 ≠ 44 := by intro h; subst h; simp [delimAt, isDelim, attrDelims] at hj0
+  have h41 : j0 ≠ 41 := by intro h; subst h; simp [delimAt, isDelim, attrDelims] at hj0
+  unfold attrSTEPread
+  rw [show (G l (j0 :: (js ++ d :: rest)) sk).ws = G l (j0 :: (js ++ d :: rest)) sk from ws_good0 l j0 _ sk hj0s]
+  simp only [bind, Except.bind, pure, Except.pure]
+  rw [show (G l (j0 :: (js ++ d :: rest)) sk).peekC = (j0, G l (j0 :: (js ++ d :: rest)) sk) from peekC_good l j0 _ sk]
+  have e36 : (j0 == 36) = false := by simpa using hj036
+  have e44 : (j0 == 44) = false := by simpa using h44
+  have e41 : (j0 == 41) = false := by simpa using h41
+  simp only [hder, Bool.false_eq_true, if_false, e36, e44, e41, Bool.or_self, hty]
+  unfold attrSTEPread.scalarNodeReadAttr
+  simp only [bind, Except.bind, pure, Except.pure]
+  rw [scalarNodeRead_string]
+  have e39 : (j0 == 39) = false := by simpa using hj039
+  have hsr : stringRead (G l (j0 :: (js ++ d :: rest)) sk) .null = ([], G l (j0 :: (js ++ d :: rest)) sk, .incomplete) := by
+    simp only [stringRead, IStream.setSkipws, getLiteralStr, ws_good0 _ _ _ _ hj0s, IStream.good, Bool.not_false, Bool.and_self,
+      Bool.not_true, Bool.false_eq_true, if_false, e39, List.isEmpty_nil, if_true]
+    rfl
+  rw [hsr]
+  simp only [List.isEmpty_nil, if_true]
+  rw [show checkRemainingInput env.lex (some attrDelims) (G l (j0 :: (js ++ d :: rest)) sk) Sev.incomplete =
+    (G ((j0 :: js).reverse ++ l) (d :: rest) sk, Sev.incomplete.greater .warning) from
+    cri_junk env.lex j0 js hj0s hj047 hj l rest d false sk .incomplete hd]
+  rfl
+
+/-- nothing of a real numeral starts with this character -/
+def notNum (c : Byte) : Prop := isDigit c = false ∧ c ≠ 43 ∧ c ≠ 45 ∧ c ≠ 46 ∧ c ≠ 69 ∧ c ≠ 101
+
+theorem realCollect_junk (j0 : Byte) (t : List Byte) (h : notNum j0) : realCollect (j0 :: t) = ([], j0 :: t, .warning) := by
+  obtain ⟨hd, h43, h45, h46, h69, h101⟩ := h
+  have hs : optSign (j0 :: t) = ([], j0 :: t) := by
+    unfold optSign
+    split
+    · rename_i heq; simp at heq; exact absurd heq.1 h43
+    · rename_i heq; simp at heq; exact absurd heq.1 h45
+    · rfl
+  have hdot : optDot (j0 :: t) = ([], j0 :: t) := by
+    unfold optDot
+    split
+    · rename_i heq; simp at heq; exact absurd heq.1 h46
+    · rfl
+  have hdg : realDigits (j0 :: t) = ([], j0 :: t) := by simp [realDigits, takeDigits, hd]
+  have e1 : (j0 == 101) = false := by simpa using h101
+  have e2 : (j0 == 69) = false := by simpa using h69
+  have hex : expPart (j0 :: t) = ([], j0 :: t, false, false) := by simp [expPart, e1, e2]
+  simp [realCollect, hs, hdg, hdot, hex]
+
+/-- something that starts like no real numeral (without delimiters) for a REAL attribute: nothing is collected, the
+    conversion fails, `CheckRemainingInput` skips the text: WARNING, unset -/
+theorem attr_real_junk (env : Env F) (strict : Bool) (a : AttrD) (hty : a.ty = .one .real) (hder : a.derived = false)
+    (j0 : Byte) (js : List Byte) (hj0s : isSpace j0 = false) (hj047 : j0 ≠ 47) (hj036 : j0 ≠ 36) (hnn : notNum j0)
+    (hj : ∀ b ∈ j0 :: js, delimAt env.lex attrDelims b = false)
+    (l : List Byte) (sk : Bool) (d : Byte) (rest : List Byte) (hd : d = 44 ∨ d = 41) :
+    attrSTEPread env strict a (G l (j0 :: (js ++ d :: rest)) sk) =
+      .ok (.warning, .one (.atom .unset), G ((j0 :: js).reverse ++ l) (d :: rest) sk) := by
+  have hj0 : delimAt env.lex attrDelims j0 = false := hj j0 (by simp)
+  have h44 : j0 ≠ 44 := by intro h; subst h; simp [delimAt, isDelim, attrDelims] at hj0
+  have h41 : j0 ≠ 41 := by intro h; subst h; simp [delimAt, isDelim, attrDelims] at hj0
+  unfold attrSTEPread
+  rw [show (G l (j0 :: (js ++ d :: rest)) sk).ws = G l (j0 :: (js ++ d :: rest)) sk from ws_good0 l j0 _ sk hj0s]
+  simp only [bind, Except.bind, pure, Except.pure]
+  rw [show (G l (j0 :: (js ++ d :: rest)) sk).peekC = (j0, G l (j0 :: (js ++ d :: rest)) sk) from peekC_good l j0 _ sk]
+  have e36 : (j0 == 36) = false := by simpa using hj036
+  have e44 : (j0 == 44) = false := by simpa using h44
+  have e41 : (j0 == 41) = false := by simpa using h41
+  simp only [hder, Bool.false_eq_true, if_false, e36, e44, e41, Bool.or_self, hty]
+  rw [scalarNodeReadAttr_real]
+  have hconv : env.ops.conv (IStream.scanFloat [] []).1 = .invalid := rfl
+  have hrr : ∃ e0, (e0 = Sev.null ∨ e0 = Sev.warning) ∧ readReal env.ops env.lex (some attrDelims) (G l (j0 :: (js ++ d :: rest)) sk) .null =
+      .ok (none, (checkRemainingInput env.lex (some attrDelims) (G l (j0 :: (js ++ d :: rest)) sk) e0).1,
+               (checkRemainingInput env.lex (some attrDelims) (G l (j0 :: (js ++ d :: rest)) sk) e0).2) := by
+    refine ⟨Sev.null.warnIf (env.lex.realReportsFail && (env.lex.realFailUnlessBlank || !([] : List Byte).isEmpty)),
+      by cases (env.lex.realReportsFail && (env.lex.realFailUnlessBlank || !([] : List Byte).isEmpty))
+         · exact Or.inl rfl
+         · exact Or.inr rfl, ?_⟩
+    simp only [readReal, ws_good0 _ _ _ _ hj0s, IStream.good, Bool.not_false, Bool.and_self, Bool.not_true, Bool.false_eq_true,
+      if_false, realCollect_junk j0 _ hnn, List.length_nil, List.reverse_nil, List.nil_append, hconv]
+    have : (env.lex.realBuf != 0 && decide (0 ≥ env.lex.realBuf)) = false := by
+      cases h : env.lex.realBuf with
+      | zero => simp
+      | succ n => simp
+    simp only [this, Bool.false_eq_true, if_false]
+    rfl
+  obtain ⟨e0, he0, hrr⟩ := hrr
+  unfold scalarNodeRead
+  simp only [hrr, liftOutcome, bind, Except.bind, pure, Except.pure]
+  rw [cri_junk env.lex j0 js hj0s hj047 hj l rest d false sk e0 hd]
+  rcases he0 with rfl | rfl <;> simp [realValue, valueToAtom] <;> rfl
+
+/-- something that starts like no enumeration item (neither `.` nor a letter; without delimiters) for an ENUMERATION /
+    BOOLEAN / LOGICAL attribute: `ReadEnum` puts the character back and reports, the text is skipped: WARNING, unset -/
+theorem attr_enum_junk (env : Env F) (strict : Bool) (a : AttrD) (ty : ElemTy) (hty : a.ty = .one ty) (het : EnumTy ty)
+    (hder : a.derived = false)
+    (j0 : Byte) (js : List Byte) (hj0s : isSpace j0 = false) (hj047 : j0 ≠ 47) (hj036 : j0 ≠ 36) (hj046 : j0 ≠ 46)
+    (hj0a : isAlpha j0 = false) (hj : ∀ b ∈ j0 :: js, delimAt env.lex attrDelims b = false)
+    (l : List Byte) (sk : Bool) (d : Byte) (rest : List Byte) (hd : d = 44 ∨ d = 41) :
+    attrSTEPread env strict a (G l (j0 :: (js ++ d :: rest)) sk) =
+      .ok (.warning, .one (.atom .unset), G ((j0 :: js).reverse ++ l) (d :: rest) sk) := by
+  have hj0 : delimAt env.lex attrDelims j0 = false := hj j0 (by simp)
+  have h44 : j0 ≠ 44 := by intro h; subst h; simp [delimAt, isDelim, attrDelims] at hj0
+  have h41 : j0 ≠ 41 := by intro h; subst h; simp [delimAt, isDelim, attrDelims] at hj0
+  unfold attrSTEPread
+  rw [show (G l (j0 :: (js ++ d :: rest)) sk).ws = G l (j0 :: (js ++ d :: rest)) sk from ws_good0 l j0 _ sk hj0s]
+  simp only [bind, Except.bind, pure, Except.pure]
+  rw [show (G l (j0 :: (js ++ d :: rest)) sk).peekC = (j0, G l (j0 :: (js ++ d :: rest)) sk) from peekC_good l j0 _ sk]
+  have e36 : (j0 == 36) = false := by simpa using hj036
+  have e44 : (j0 == 44) = false := by simpa using h44
+  have e41 : (j0 == 41) = false := by simpa using h41
+  have e46 : (j0 == 46) = false := by simpa using hj046
+  simp only [hder, Bool.false_eq_true, if_false, e36, e44, e41, Bool.or_self, hty]
+  have her : enumRead env.lex (enumKindOf ty) a.optional (G l (j0 :: (js ++ d :: rest)) sk) .null =
+      (none, G l (j0 :: (js ++ d :: rest)) sk, .warning) := by
+    simp only [enumRead, readEnum, ws_good0 _ _ _ _ hj0s, IStream.good, Bool.not_false, Bool.and_self, Bool.not_true,
+      Bool.false_eq_true, if_false, getInto_good, e46, hj0a, Bool.or_self, e44, e41, putback_good]
+    rfl
+  have hmain : attrSTEPread.scalarNodeReadAttr env ty a.optional (G l (j0 :: (js ++ d :: rest)) sk) =
+      .ok (.warning, .unset, G ((j0 :: js).reverse ++ l) (d :: rest) sk) := by
+    rw [scalarNodeReadAttr_enum env ty het, her]
+    simp only
+    rw [show checkRemainingInput env.lex (some attrDelims) (G l (j0 :: (js ++ d :: rest)) sk) Sev.warning =
+      (G ((j0 :: js).reverse ++ l) (d :: rest) sk, Sev.warning.greater .warning) from
+      cri_junk env.lex j0 js hj0s hj047 hj l rest d false sk .warning hd]
+    simp [enumValue, valueToAtom]
+    rfl
+  rcases het with rfl | rfl | ⟨items, rfl⟩ <;> (simp only [] ; rw [hmain])
+
 end StepModel.P21.RLemmas
